@@ -52,12 +52,13 @@ Fixpoint wf_steps (S : list block) (l : list stepc) : bool :=
       wf_steps S' l'
   end.
 
-(** All blocks ever offered to the wallet form a universe in the sense the MODEL needs (weaker
-    than [Spec.valid_universe], the guard of the theorems): a txid names one transaction up to
-    the nullifiers of its outputs (a Sapling output re-mined at another tree position has another
-    nullifier), within a transaction (pool, index) names one output, and an output nullifier
-    names one output position (txid, pool, index).  [strict_universe] additionally demands equal
-    nullifiers, i.e. [Spec.valid_universe]; the tag of a case records whether it holds. *)
+(** All blocks ever offered to the wallet form a universe in the sense of [Spec.weak_universe],
+    the hypothesis of the [C01_forks_*] theorems ([WfProofs.univ_ok_weak]): a txid names one
+    transaction up to the nullifiers of its outputs (a Sapling output re-mined at another tree
+    position has another nullifier), within a transaction (pool, index) names one output, and an
+    output nullifier names one output position (txid, pool, index).  [strict_universe]
+    additionally demands equal nullifiers, i.e. [Spec.valid_universe]; the tag of a case records
+    whether it holds. *)
 Definition out_eqb_mod_nf (a b : out) : bool :=
   optN_eqb (o_owner a) (o_owner b) && N.eqb (o_pool a) (o_pool b) && N.eqb (o_value a) (o_value b) && N.eqb (o_idx a) (o_idx b).
 Definition out_eqb (a b : out) : bool := out_eqb_mod_nf a b && N.eqb (o_nf a) (o_nf b).
